@@ -928,6 +928,17 @@ func (x *Exec) siteAsserts(st *State, fr *Frame, kind, arg string, bind map[stri
 			if loopN != 0 && !x.inLoop(fr, loopN) {
 				continue
 			}
+			if kind == "exit" {
+				leaving := false
+				for _, n := range x.exitLoops {
+					if n == loopN {
+						leaving = true
+					}
+				}
+				if !leaving {
+					continue
+				}
+			}
 			// itercalls/iterres count from the entry of the innermost enclosing loop iteration
 			if kind != "backedge" {
 				x.iterBase = 0
